@@ -165,3 +165,15 @@ def truth_of(path, term):
 def result_of(ev):
     """the value term of an opaque call event"""
     return ("call", ev.d["func"], ev.d["args"], ev.d["kwargs"], ev.d.get("site"))
+
+
+def deref(path, v, depth=0):
+    """replace references to list/set objects built on this path by their (final) contents, recursively"""
+    if not isinstance(v, tuple) or depth > 40:
+        return v
+    if v and v[0] == "ref":
+        c = path.heap.get(v)
+        if c is None:
+            return v
+        return deref(path, c, depth + 1)
+    return tuple(deref(path, x, depth + 1) if isinstance(x, tuple) else x for x in v)
